@@ -226,6 +226,8 @@ Qed.
 
 Notation a2j := (arg1_to_json T X).
 Notation l2j := (leaf_to_json T X arg1 (arg1_to_json T X) arg1_raw).
+(* an argument written at ITEM level (several parameters, *args, values of a keyword mapping) *)
+Notation a2i := (arg_item X arg1 (arg1_to_json T X) arg1_raw).
 
 (* ---- literal values ---- *)
 
@@ -487,17 +489,17 @@ Proof.
   intros H. destruct (okkeys_inv d H) as [Hk [Hc _]]. unfold escape_map. rewrite (no_path_key d Hk Hc). reflexivity.
 Qed.
 
-Lemma item_to_json_pure v : json_pure v = true -> item2 v = true -> item_to_json X false v = Ok v.
+(* JSON data is plain at every depth (no type objects, no data paths / other objects) *)
+Lemma json_pure_deep_plain : forall v, json_pure v = true -> deep_plain v = true.
 Proof.
-  destruct v; try discriminate; try reflexivity. intros _ H. cbn [item2] in H. cbn [item_to_json].
-  rewrite (escape_map_okkeys d H). reflexivity.
-Qed.
-
-Lemma mapM_item_pure l : forallb json_pure l = true -> forallb item2 l = true -> mapM (item_to_json X false) l = Ok l.
-Proof.
-  induction l as [|v l IH]; cbn [forallb mapM]; [reflexivity|].
-  intros H1 H2. apply andb_true_iff in H1 as [Hv1 Hl1]. apply andb_true_iff in H2 as [Hv2 Hl2].
-  rewrite (item_to_json_pure v Hv1 Hv2), (IH Hl1 Hl2). reflexivity.
+  induction v as [ | b | z | n m e | s | l IHl | l IHl | d IHd | t | t ] using pyval_ind'; intros H;
+    try reflexivity; try discriminate H.
+  - cbn [json_pure] in H. cbn [deep_plain]. revert H. induction IHl as [|x r Hx Hr IH]; cbn [forallb]; [reflexivity|].
+    intros H. apply andb_true_iff in H as [H1 H2]. rewrite (Hx H1), (IH H2). reflexivity.
+  - cbn [deep_plain]. revert H. induction IHd as [|[k x] r [_ Hx] Hr IH]; [reflexivity|].
+    intros H. destruct k; try discriminate H.
+    change (json_pure (VDict ((VStr s, x) :: r))) with (json_pure x && json_pure (VDict r)) in H.
+    apply andb_true_iff in H as [H1 H2]. cbn [forallb snd] in *. rewrite (Hx H1), (IH H2). reflexivity.
 Qed.
 
 Lemma json_pure_list l : json_pure (VList l) = forallb json_pure l.
@@ -507,6 +509,38 @@ Lemma json_pure_dict_vals d : json_pure (VDict d) = true -> forallb json_pure (m
 Proof.
   cbn [json_pure]. induction d as [|[k v] r IH]; cbn [map snd forallb]; [reflexivity|].
   destruct k; try discriminate. intros H. apply andb_true_iff in H as [Hv Hr]. rewrite Hv. exact (IH Hr).
+Qed.
+
+Lemma forallb_map {Y Z} (f : Z -> bool) (g : Y -> Z) l : forallb f (map g l) = forallb (fun x => f (g x)) l.
+Proof. induction l as [|x l IH]; cbn [map forallb]; [reflexivity|]. rewrite IH. reflexivity. Qed.
+
+Lemma deep_plain_items l : forallb json_pure l = true -> forallb deep_plain l = true.
+Proof. apply forallb_impl. exact json_pure_deep_plain. Qed.
+
+Lemma deep_plain_vals d : json_pure (VDict d) = true -> forallb (fun kv => deep_plain (snd kv)) d = true.
+Proof.
+  intros H. rewrite <- (forallb_map deep_plain snd). exact (deep_plain_items _ (json_pure_dict_vals d H)).
+Qed.
+
+(* at item level a JSON list is copied as it is, a JSON mapping is escaped at its own top level only *)
+Lemma item_to_json_list l : forallb json_pure l = true -> item_to_json X false (VList l) = Ok (VList l).
+Proof. intros H. cbn [item_to_json]. rewrite (deep_plain_items l H). reflexivity. Qed.
+
+Lemma item_to_json_dict d : json_pure (VDict d) = true -> item_to_json X false (VDict d) = Ok (escape_map d).
+Proof. intros H. cbn [item_to_json]. rewrite (deep_plain_vals d H). reflexivity. Qed.
+
+Lemma item_to_json_pure v : json_pure v = true -> item2 v = true -> item_to_json X false v = Ok v.
+Proof.
+  destruct v; try discriminate; try reflexivity; intros Hj H.
+  - exact (item_to_json_list l Hj).
+  - cbn [item2] in H. rewrite (item_to_json_dict d Hj), (escape_map_okkeys d H). reflexivity.
+Qed.
+
+Lemma mapM_item_pure l : forallb json_pure l = true -> forallb item2 l = true -> mapM (item_to_json X false) l = Ok l.
+Proof.
+  induction l as [|v l IH]; cbn [forallb mapM]; [reflexivity|].
+  intros H1 H2. apply andb_true_iff in H1 as [Hv1 Hl1]. apply andb_true_iff in H2 as [Hv2 Hl2].
+  rewrite (item_to_json_pure v Hv1 Hv2), (IH Hl1 Hl2). reflexivity.
 Qed.
 
 Lemma mapM_kv_pure d : forallb json_pure (map snd d) = true -> forallb item2 (map snd d) = true ->
@@ -540,6 +574,31 @@ Qed.
 Lemma a2j_lit cast v : a2j cast (ALit v) = val_to_json X cast v.
 Proof. reflexivity. Qed.
 
+(* the same at item level (arguments of callables with several parameters / *args, values of a keyword
+   mapping): under a type conversion a single type only -- a LIST of types there is refused by the serialiser
+   (see leaf_to_json_cast_items_refused below) *)
+Definition item_ok (cast : bool) (v : pyval) : bool := if cast then is_known_type v else json_pure v && plain2 v.
+
+Lemma item_ok_arg_ok cast v : item_ok cast v = true -> arg_ok cast v = true.
+Proof. destruct cast; cbn [item_ok arg_ok]; [|exact (fun H => H)]. destruct v; try discriminate. exact (fun H => H). Qed.
+
+Lemma item_to_json_ok cast v : item_ok cast v = true -> item_to_json X cast v = Ok (val_json cast v).
+Proof.
+  destruct cast; cbn [item_ok val_json]; intros H.
+  - rewrite (item_to_json_type v H). destruct v; try discriminate H. reflexivity.
+  - apply andb_true_iff in H as [H1 H2]. exact (item_to_json_pure v H1 (plain2_item2 v H2)).
+Qed.
+
+Lemma a2i_lit cast v : a2i cast (ALit v) = item_to_json X cast v.
+Proof. reflexivity. Qed.
+
+Lemma mapM_a2i cast l : forallb (item_ok cast) l = true -> mapM (a2i cast) (map ALit l) = Ok (map (val_json cast) l).
+Proof.
+  induction l as [|v l IH]; cbn [forallb mapM map]; [reflexivity|].
+  intros H. apply andb_true_iff in H as [Hv Hl]. rewrite a2i_lit, (item_to_json_ok cast v Hv). cbn [bind].
+  rewrite (IH Hl). reflexivity.
+Qed.
+
 Lemma mapM_a2j cast l : forallb (arg_ok cast) l = true -> mapM (a2j cast) (map ALit l) = Ok (map (val_json cast) l).
 Proof.
   induction l as [|v l IH]; cbn [forallb mapM map]; [reflexivity|].
@@ -554,26 +613,19 @@ Definition sig_shape (fd : fdef) : nat * bool * bool :=
    match s_vararg (f_sig fd) with Some _ => true | None => false end,
    match s_kwarg (f_sig fd) with Some _ => true | None => false end).
 
-Definition kws_json (cast : bool) := fix go (kws : list (string * arg1)) : res (list (pyval * pyval)) :=
-  match kws with
-  | [] => Ok []
-  | (k', a) :: r => let* x := a2j cast a in let* r' := go r in Ok ((VStr k', x) :: r')
-  end.
-
 Definition kws_raw := fix go (kws : list (string * arg1)) : res (list (pyval * pyval)) :=
   match kws with
   | [] => Ok []
   | (k', a) :: r => let* x := arg1_raw a in let* r' := go r in Ok ((VStr k', x) :: r')
   end.
 
-(* the values of a keyword mapping without "path" in its names: written at ITEM level (a literal list is
-   copied as it is, a literal mapping is escaped, a data path is written as its spec) *)
+(* the arguments of a callable with several parameters, and the values of a keyword mapping without "path" in
+   its names: written at ITEM level (a literal list is copied as it is, a literal mapping is escaped, a data
+   path is written as its spec) *)
 Definition kws_item (cast : bool) := fix go (kws : list (string * arg1)) : res (list (pyval * pyval)) :=
   match kws with
   | [] => Ok []
-  | (k', a) :: r =>
-      let* x := match arg1_raw a with Ok v => item_to_json X cast v | Err _ => a2j cast a end in
-      let* r' := go r in Ok ((VStr k', x) :: r')
+  | (k', a) :: r => let* x := a2i cast a in let* r' := go r in Ok ((VStr k', x) :: r')
   end.
 
 Definition kws_have_path (kws : list (string * arg1)) : bool :=
@@ -588,7 +640,7 @@ Definition args_json (sh : nat * bool * bool) (cast : bool) (l : leaf arg1) : re
     | [] => Err IndexError
     end
   else if (1 <? npk)%nat && negb va && negb kw then
-    let* items := kws_json cast (l_kwargs l) in Ok (VDict items)
+    let* items := kws_item cast (l_kwargs l) in Ok (VDict items)
   else if kw && negb va then
     (* **items: written raw through escape_map if some item name contains "path" *)
     if kws_have_path (l_kwargs l) then
@@ -596,7 +648,7 @@ Definition args_json (sh : nat * bool * bool) (cast : bool) (l : leaf arg1) : re
     else
       let* items := kws_item cast (l_kwargs l) in Ok (VDict items)
   else if va && (npk =? 0)%nat && negb kw then
-    let* items := mapM (a2j cast) (l_args l) in Ok (VList items)
+    let* items := mapM (a2i cast) (l_args l) in Ok (VList items)
   else Err NotImplementedError.
 
 Definition key_casts (key : string) : bool := str_contains "dtype" key || str_contains "is_instance" key.
@@ -716,15 +768,6 @@ Proof.
   intros Hl Hv. unfold args_json. cbn [Nat.eqb negb andb]. rewrite Hl, a2j_lit. exact (val_to_json_ok cast v Hv).
 Qed.
 
-Lemma kws_json_lit cast items : forallb (arg_ok cast) (map snd items) = true ->
-  kws_json cast (kmapL items) = Ok (map skv (kw_json cast items)).
-Proof.
-  induction items as [|[k v] r IH]; cbn [map snd forallb]; intros H; [reflexivity|].
-  apply andb_true_iff in H as [Hv Hr].
-  unfold kmap. cbn [map fst snd kws_json]. fold (kws_json cast). fold (kmapL r).
-  rewrite a2j_lit, (val_to_json_ok cast v Hv). cbn [bind]. rewrite (IH Hr). reflexivity.
-Qed.
-
 (* After the repair of the serialiser, the keyword mapping of a var-keyword callable
    (items_contain( **items )) is written raw and ESCAPED as soon as one item name contains "path";
    from_spec then un-escapes the names and moves them to the end (cf. example (e) below for mapping
@@ -744,81 +787,85 @@ Proof.
   rewrite IH. reflexivity.
 Qed.
 
-(* the item values of the fragment (JSON data, mappings without "path" keys) are written as they are;
-   only where no type conversion applies: under `cast` a list of types would be copied, not named
-   (see leaf_to_json_cast_items_counterexample below) *)
-Lemma kws_item_lit items : forallb (arg_ok false) (map snd items) = true ->
-  kws_item false (kmapL items) = Ok (map skv (kw_json false items)).
+(* the item-level values of the fragment (JSON data, mappings without "path" keys; under a type conversion:
+   single types) are written as they are / as their names *)
+Lemma kws_item_lit cast items : forallb (item_ok cast) (map snd items) = true ->
+  kws_item cast (kmapL items) = Ok (map skv (kw_json cast items)).
 Proof.
   induction items as [|[k v] r IH]; cbn [map snd forallb]; intros H; [reflexivity|].
-  apply andb_true_iff in H as [Hv Hr]. cbn [arg_ok] in Hv. apply andb_true_iff in Hv as [Hj Hp].
-  unfold kmap. cbn [map fst snd kws_item arg1_raw]. fold (kws_item false). fold (kmapL r).
-  rewrite (item_to_json_pure v Hj (plain2_item2 v Hp)). cbn [bind]. rewrite (IH Hr). reflexivity.
+  apply andb_true_iff in H as [Hv Hr].
+  unfold kmap. cbn [map fst snd kws_item]. fold (kws_item cast). fold (kmapL r).
+  rewrite a2i_lit, (item_to_json_ok cast v Hv). cbn [bind]. rewrite (IH Hr). reflexivity.
 Qed.
 
 Lemma args_json_kw sh cast l items :
-  (sh = (2, false, false) \/ (sh = (0, false, true) /\ items_nopath items = true /\ cast = false))%nat ->
+  (sh = (2, false, false) \/ (sh = (0, false, true) /\ items_nopath items = true))%nat ->
   l_kwargs l = kmapL items ->
-  forallb (arg_ok cast) (map snd items) = true ->
+  forallb (item_ok cast) (map snd items) = true ->
   args_json sh cast l = Ok (kwd (kw_json cast items)).
 Proof.
   intros Hs Hl Hv. unfold kwd. change (fun kv : string * pyval => (VStr (fst kv), snd kv)) with skv.
-  destruct Hs as [-> | [-> [Hn ->]]]; unfold args_json; cbn [Nat.eqb Nat.ltb Nat.leb negb andb orb]; rewrite Hl.
-  - rewrite (kws_json_lit cast items Hv). reflexivity.
+  destruct Hs as [-> | [-> Hn]]; unfold args_json; cbn [Nat.eqb Nat.ltb Nat.leb negb andb orb]; rewrite Hl.
+  - rewrite (kws_item_lit cast items Hv). reflexivity.
   - unfold items_nopath in Hn. apply negb_true_iff in Hn.
-    rewrite kws_have_path_lit, Hn, (kws_item_lit items Hv). reflexivity.
+    rewrite kws_have_path_lit, Hn, (kws_item_lit cast items Hv). reflexivity.
 Qed.
 
 Lemma args_json_star cast l vs :
-  l_args l = map ALit vs -> forallb (arg_ok cast) vs = true ->
+  l_args l = map ALit vs -> forallb (item_ok cast) vs = true ->
   args_json (0, true, false)%nat cast l = Ok (VList (map (val_json cast) vs)).
 Proof.
   intros Hl Hv. unfold args_json. cbn [Nat.eqb Nat.ltb Nat.leb negb andb orb].
-  rewrite Hl, (mapM_a2j cast vs Hv). reflexivity.
+  rewrite Hl, (mapM_a2i cast vs Hv). reflexivity.
 Qed.
 
-(* items_contain( **items ): no type conversion *)
-Definition q_nocast (q : dsl) (cast : bool) : Prop :=
-  match q with Q_items_contain _ => cast = false | _ => True end.
+(* when the arguments of a form are written: the single argument of a one-parameter callable at argument level
+   (arg_ok), the others at item level (item_ok) *)
+Definition form_ok (cast : bool) (f : form) : bool :=
+  match f with
+  | FZero => true
+  | FOne v => arg_ok cast v
+  | FKw items => forallb (item_ok cast) (map snd items)
+  | FStar l => forallb (item_ok cast) l
+  end.
 
-Lemma args_json_form c q cast : q_items_nopath q = true -> q_nocast q cast ->
-  forallb (arg_ok cast) (q_args q) = true ->
+Lemma args_json_form c q cast : q_items_nopath q = true ->
+  form_ok cast (q_form q) = true ->
   args_json (q_shape q) cast (lmapL (expected_leaf c q)) = Ok (form_json cast (q_form q)).
 Proof.
-  rewrite q_args_form. intros Hn Hc H.
-  destruct q; cbn [q_form form_args form_json q_shape q_nocast] in *;
+  intros Hn H.
+  destruct q; cbn [q_form form_ok form_json q_shape] in *;
     first [ apply args_json_zero
-          | eapply args_json_one; [reflexivity|]; cbn [forallb] in H; rewrite andb_true_r in H; exact H
+          | eapply args_json_one; [reflexivity|]; exact H
           | apply args_json_kw;
-              [first [left; reflexivity|right; split; [reflexivity|split; [exact Hn|exact Hc]]]|reflexivity|exact H]
+              [first [left; reflexivity|right; split; [reflexivity|exact Hn]]|reflexivity|exact H]
           | apply args_json_star; [reflexivity|exact H] ].
 Qed.
-
-(* items_contain exists on the mapping classes Value and Key only: their keys `value.items_contain`,
-   `key.items_contain` contain neither "dtype" nor "is_instance" *)
-Lemma items_nocast c q : class_ok c q = true -> q_nocast q (casts c q).
-Proof. destruct q; try exact (fun _ => I). destruct c; try discriminate; reflexivity. Qed.
 
 (* what is written for a leaf *)
 Definition q_json_val (c : scls) (q : dsl) : pyval := form_json (casts c q) (q_form q).
 Definition leaf_json (c : scls) (q : dsl) : pyval := VDict [(VStr (leaf_key c q), q_json_val c q)].
 
-Lemma leaf_to_json_ok c q : class_ok c q = true -> q_items_nopath q = true ->
-  forallb (arg_ok (casts c q)) (q_args q) = true ->
+Lemma leaf_to_json_ok c q : q_items_nopath q = true ->
+  form_ok (casts c q) (q_form q) = true ->
   l2j (lmapL (expected_leaf c q)) = Ok (leaf_json c q).
 Proof.
-  intros Hc Hn H. rewrite leaf_to_json_expected, (args_json_form c q _ Hn (items_nocast c q Hc) H). reflexivity.
+  intros Hn H. rewrite leaf_to_json_expected, (args_json_form c q _ Hn H). reflexivity.
 Qed.
 
-(* class_ok is needed: on a (non-existent) `dtype` class with items_contain the values are ITEMS of a
-   mapping, a list of types is copied as it is and not written as names *)
-Example leaf_to_json_cast_items_counterexample :
+(* item_ok (a single type), not arg_ok (types_only: a type or a list of types), at item level: on a
+   (non-existent) `dtype` class with items_contain the values are ITEMS of a mapping, where a list of types
+   is refused (it used to be copied as it is, not written as names); likewise a list of types as one of
+   the *args of is_instance *)
+Example leaf_to_json_cast_items_refused :
   let q := Q_items_contain [("a", VList [VType TInt])] in
   class_ok SValueDataType q = false /\ q_items_nopath q = true /\
   forallb (arg_ok (casts SValueDataType q)) (q_args q) = true /\
-  l2j (lmapL (expected_leaf SValueDataType q))
-    = Ok (VDict [(VStr "value.dtype.items_contain", VDict [(VStr "a", VList [VType TInt])])]) /\
-  leaf_json SValueDataType q = VDict [(VStr "value.dtype.items_contain", VDict [(VStr "a", VList [VStr "int"])])].
+  form_ok (casts SValueDataType q) (q_form q) = false /\
+  l2j (lmapL (expected_leaf SValueDataType q)) = Err TypeError /\
+  l2j (lmapL (expected_leaf SValue (Q_is_instance [VList [VType TInt]]))) = Err TypeError /\
+  l2j (lmapL (expected_leaf SValueDataType (Q_items_contain [("a", VType TInt)])))
+    = Ok (VDict [(VStr "value.dtype.items_contain", VDict [(VStr "a", VStr "int")])]).
 Proof. vm_compute. repeat split. Qed.
 
 (* where no type conversion applies, the canonical spec spelling itself is written *)
@@ -906,6 +953,28 @@ Proof.
   destruct (casts c q) eqn:Ec; cbn [arg_ok orb] in *.
   - exact (cast_args_types c q Hty Ec).
   - exact (forallb_and _ _ _ Hj Hpl).
+Qed.
+
+Lemma form_ok_false f : forallb (arg_ok false) (form_args f) = true -> form_ok false f = true.
+Proof.
+  destruct f; cbn [form_args form_ok]; intros H; try exact H.
+  cbn [forallb] in H. rewrite andb_true_r in H. exact H.
+Qed.
+
+(* where types are written as names, a several-parameter / *args callable has single types as arguments *)
+Lemma cast_form_ok c q : q_types_ok c q = true -> casts c q = true -> form_ok true (q_form q) = true.
+Proof.
+  unfold q_types_ok, casts. fold (typed c). intros Ht Hc.
+  destruct (typed c); destruct q; cbn [q_is_inst orb negb] in *; try discriminate;
+    cbn [q_form form_ok arg_ok item_ok]; exact Ht.
+Qed.
+
+Lemma leaf_form_ok c q : leaf_in_c11 c q = true -> form_ok (casts c q) (q_form q) = true.
+Proof.
+  intros H. pose proof (leaf_args_ok c q H) as Ha. destruct (leaf_in_c11_inv c q H) as [_ [_ [Hty _]]].
+  destruct (casts c q) eqn:Ec.
+  - exact (cast_form_ok c q Hty Ec).
+  - apply form_ok_false. rewrite <- q_args_form. exact Ha.
 Qed.
 
 (* ---- json_pure ---- *)
@@ -1051,9 +1120,8 @@ Lemma cond_to_json_tree n : leaves_c11 n = true -> cond1_to_json T X (cmapL (con
 Proof.
   unfold cond1_to_json. induction n as [c q| |o a IHa b IHb]; intros H.
   - cbn [cond_of cond_map cond_to_json tree_json]. apply leaf_to_json_ok.
-    + destruct (leaf_in_c11_inv c q (leaves_c11_leaf c q H)) as [Hc _]. exact Hc.
     + exact (leaf_in_c11_nopath c q (leaves_c11_leaf c q H)).
-    + exact (leaf_args_ok c q (leaves_c11_leaf c q H)).
+    + exact (leaf_form_ok c q (leaves_c11_leaf c q H)).
   - reflexivity.
   - apply leaves_c11_bin in H as [Ha Hb].
     cbn [cond_of cond_map cond_to_json tree_json]. rewrite (IHa Ha), (IHb Hb). cbn [bind].
